@@ -137,10 +137,23 @@ func genAnyWord(r *coqfmt.Rng) string {
 
 const rawAlphabet = "abcxyzABCXYZ019_-_-aAzZ $.é"
 
+var baselineInitialisms = []string{"ACL", "API", "ASCII", "CPU", "CSS", "DNS", "EOF", "GUID", "HTML", "HTTP", "HTTPS", "ID", "IP", "JSON", "LHS", "QPS", "RAM", "RHS", "RPC", "SLA", "SMTP", "SQL", "SSH", "TCP", "TLS", "TTL", "UDP", "UI", "UID", "UUID", "URI", "URL", "UTF8", "VM", "XML", "XMPP", "XSRF", "XSS"}
+
 func gen(r *coqfmt.Rng, n int, tier string) []json.RawMessage {
 	inits, err := initsrc.Load()
 	if err != nil {
 		panic(err)
+	}
+	// names are assembled from the COMMON initialisms of the pinned tree as well as the
+	// source's current list: an initialism that disappears from the source must show
+	have := map[string]bool{}
+	for _, i := range inits {
+		have[i] = true
+	}
+	for _, b := range baselineInitialisms {
+		if !have[b] {
+			inits = append(inits, b)
+		}
 	}
 	var out []json.RawMessage
 	add := func(in input) {
